@@ -455,6 +455,9 @@ func (s liveAOFSwitches) Error() string {
 // AOFMD5 pos size
 func (s *Server) cmdAOFMD5(msg *Message) (resp.Value, error) {
 	start := time.Now()
+	if s.aof == nil {
+		return retrerr(errors.New("aof disabled"))
+	}
 
 	// >> Args
 
